@@ -1193,4 +1193,6 @@ func main() {
 	e.dialCode(outdir)
 	e.originCode(outdir)
 	e.closePayloadCode(outdir)
+	e.takeoverCode(outdir)
+	e.headerCode(outdir)
 }
